@@ -320,7 +320,57 @@ def evaluate_multi(task):
     return out
 
 
+def late_signature_doc(sig, advice):
+    """Unsigned response whose only assertion is encrypted for this SP; the (forged, never signed) assertion carries, where
+    its Signature would be, a bare xenc:EncryptedData whose plain text is a ds:Signature naming the assertion
+    (sig: junk values / a genuine assertion's signature copied), and in its Advice an EncryptedAssertion (garbage, or
+    encrypted for somebody else) that makes the receiver decrypt a second time."""
+    now = env.BASE
+    if sig == 'junk':
+        sg = forge.sig_template('FL1').replace('<ds:DigestValue/>', '<ds:DigestValue>AAAAAAAAAAAAAAAAAAAAAAAAAAA=</ds:DigestValue>').replace(
+            '<ds:SignatureValue/>', '<ds:SignatureValue>%s</ds:SignatureValue>' % ('QUJD' * 86))
+    else:
+        g = xmlsec.parse_doc(forge.sign(forge.response(now, [forge.assertion(now, aid='FL1', sign=True)]), 'FL1', 'idpA'))
+        sg = [e for e in xmlsec.dfs(g.documentElement) if e.localName == 'Signature'][0].toxml()
+    adv = {'garbage': '<saml:EncryptedAssertion>%s</saml:EncryptedAssertion>' % forge.enc_template().replace('<xenc:CipherValue/>', '<xenc:CipherValue>AAAA</xenc:CipherValue>'),
+           'for-somebody-else': '<saml:EncryptedAssertion><saml:Assertion xmlns:saml="%s" ID="ADVX" Version="2.0" IssueInstant="%s"><saml:Issuer>x</saml:Issuer></saml:Assertion></saml:EncryptedAssertion>' % (SAML, forge.ts(now)),
+           'none': ''}[advice]
+    a = forge.assertion(now, aid='FL1', subject='FORGED-SUBJECT', attrs=(('givenName', ('FORGED-MARK',)),), advice=adv, extra_first='<vp:SIGSLOT xmlns:vp="urn:vp:slot"/>')
+    d = xmlsec.parse_doc(forge.response(now, [a]))
+    root = d.documentElement
+    slot = [e for e in xmlsec.dfs(root) if e.localName == 'SIGSLOT'][0]
+    sgn = d.importNode(xmlsec.parse_doc(sg).documentElement, True)
+    slot.parentNode.replaceChild(sgn, slot)
+    xmlsec.encrypt_node(d, sgn, forge.enc_template(), world.pub('spXenc1'))
+    if advice == 'for-somebody-else':
+        inner = [e for e in xmlsec.dfs(root) if e.localName == 'Assertion' and e.getAttribute('ID') == 'ADVX'][0]
+        xmlsec.encrypt_node(d, inner, forge.enc_template(), world.pub('spY'))
+    ass = [e for e in elems(root) if e.localName == 'Assertion'][0]
+    wrap = d.createElementNS(SAML, 'saml:EncryptedAssertion')
+    root.replaceChild(wrap, ass)
+    wrap.appendChild(ass)
+    xmlsec.encrypt_node(d, ass, forge.enc_template(), world.pub('spXenc1'))
+    return root.toxml()
+
+
+def evaluate_late(task):
+    sig, advice, cfgs = task
+    xml = late_signature_doc(sig, advice)
+    out = []
+    for cfg in cfgs:
+        env.Clock.set(env.BASE)
+        obs = oracle.accept_response(sp_for(cfg), xml)
+        why = None
+        if obs['accept'] and 'FORGED' in repr(obs['identity']):
+            why = 'identity-contains-content-of-an-unsigned-assertion'
+        out.append({'cfg': list(cfg), 'accept': obs['accept'], 'exc': obs.get('exc'), 'why': why,
+                    'subject': obs['identity']['name_id'][0] if obs['accept'] and obs['identity']['name_id'] else None})
+    return out
+
+
 def evaluate_any(t):
+    if t[0] == 'late':
+        return evaluate_late(t[1:])
     if t[0] == 'multi':
         return evaluate_multi(t[1:])
     return evaluate(t)
@@ -426,6 +476,8 @@ def run(ctx):
     for n_ in (1, 2, 3):
         for seq in itertools.product(MULTI, repeat=n_):
             tasks.append((dict(kind='multi', seq=list(seq), start='A', enc=False), ('multi', seq, mcfgs)))
+    for sig_, adv_ in itertools.product(('junk', 'copied'), ('garbage', 'for-somebody-else', 'none')):
+        tasks.append((dict(kind='late-signature', sig=sig_, advice=adv_, start='A', enc=True), ('late', sig_, adv_, mcfgs)))
     res = ctx.pmap(evaluate_any, [t for _c, t in tasks])
     ctx.recheck(evaluate_any, [t for _c, t in tasks], res, n=32)
     n_eval = 0
@@ -478,6 +530,9 @@ def replay(ctx, w):
     TMP[0] = ctx.tmp
     if w['kind'] == 'multi':
         out = evaluate_multi((tuple(w['seq']), [tuple(w['cfg'])]))[0]
+        return {'violation': bool(out['why']), 'observed': out}
+    if w['kind'] == 'late-signature':
+        out = evaluate_late((w['sig'], w['advice'], [tuple(w['cfg'])]))[0]
         return {'violation': bool(out['why']), 'observed': out}
     kind = w.get('start')
     xml = start_doc(kind, w.get('alg', 'sha256'))
